@@ -456,11 +456,10 @@ class Node(object):
         if isinf(self.c) or self.c == 0:
             self.server_utilisation = None
         else:
-            for server in self.servers:
-                self.all_servers_total.append(server.total_time)
-                self.all_servers_busy.append(server.busy_time)
-            if sum(self.all_servers_total) > 0:
-                self.server_utilisation = sum(self.all_servers_busy) / sum(self.all_servers_total)
+            total = sum(self.all_servers_total) + sum(server.total_time for server in self.servers)
+            busy = sum(self.all_servers_busy) + sum(server.busy_time for server in self.servers)
+            if total > 0:
+                self.server_utilisation = busy / total
             else:
                 self.server_utilisation = None
 
